@@ -206,6 +206,8 @@ pub fn build<Data: GarnishData>(parse_root: usize, parse_tree: Vec<ParseNode>, d
         let mut stack = vec![root_index];
 
         while let Some(node_index) = stack.pop() {
+            #[cfg(garnish_verif)]
+            crate::verif::count_build_pop();
             let parse_node = match parse_tree.get(node_index) {
                 Some(node) => node,
                 None => Err(CompilerError::new_message(format!("No parse node at index {}", node_index)))?,
